@@ -11,165 +11,31 @@ package cross_chain_manager
 
 import (
 	"bytes"
-	"errors"
 
 	"github.com/polynetwork/poly/common"
 	"github.com/polynetwork/poly/common/config"
-	"github.com/polynetwork/poly/core/payload"
-	"github.com/polynetwork/poly/core/types"
-	"github.com/polynetwork/poly/native"
 	scom "github.com/polynetwork/poly/native/service/cross_chain_manager/common"
-	"github.com/polynetwork/poly/native/service/governance/node_manager"
-	"github.com/polynetwork/poly/native/service/governance/side_chain_manager"
 	"github.com/polynetwork/poly/native/service/utils"
-	"github.com/polynetwork/poly/native/storage"
 	"github.com/polynetwork/poly/zzsym"
 )
 
-// ---- proof-verifier stub ---------------------------------------------------------------------
-
-var zzStub struct {
-	reject  bool              // the source-chain proof does not verify
-	pending bool              // vote / ripple router: quorum not reached yet, (nil, nil)
-	param   *scom.MakeTxParam // the verified message otherwise
-	calls   int
-}
-
-func zzStubProposal(ns *native.NativeService) (*scom.MakeTxParam, error) {
-	zzStub.calls++
-	if zzStub.reject {
-		return nil, errors.New("zz: source proof rejected")
-	}
-	if zzStub.pending {
-		return nil, nil
-	}
-	return zzStub.param, nil
-}
-
-// zzSymParam: a verified message with symbolic content; byte strings of length <= L each.
-func zzSymParam(toChain uint64, L int) *scom.MakeTxParam {
-	return &scom.MakeTxParam{
-		TxHash:              zzsym.BytesChoose("p.txhash", L),
-		CrossChainID:        zzsym.BytesChoose("p.ccid", L),
-		FromContractAddress: zzsym.BytesChoose("p.from", L),
-		ToChainID:           toChain,
-		ToContractAddress:   zzsym.BytesChoose("p.to", L),
-		Method:              "unlock",
-		Args:                zzsym.BytesChoose("p.args", L),
-	}
-}
-
-// ---- transaction / service construction ------------------------------------------------------
-
-// zzTx: a real immutable transaction (hash = sha256(sha256(unsigned bytes))) with the given nonce.
-func zzTx(nonce uint32, signers ...common.Address) *types.Transaction {
-	mt := &types.Transaction{TxType: types.Invoke, Nonce: nonce, Payload: &payload.InvokeCode{Code: []byte{1}}, CoinType: types.ONG}
-	sink := common.NewZeroCopySink(nil)
-	if err := mt.Serialization(sink); err != nil {
-		panic("zz: tx serialization")
-	}
-	tx, err := types.TransactionFromRawBytes(sink.Bytes())
-	if err != nil {
-		panic("zz: tx decode")
-	}
-	tx.SignedAddr = signers
-	return tx
-}
-
-func zzService(db *storage.CacheDB, tx *types.Transaction, height uint32, input []byte) *native.NativeService {
-	ns, err := native.NewNativeService(db, tx, 0, height, common.Uint256{}, 0, input, false)
-	if err != nil {
-		panic("zz: NewNativeService")
-	}
-	return ns
-}
-
-func zzEntranceInput(src uint64, height uint32) []byte {
-	p := &scom.EntranceParam{SourceChainID: src, Height: height, Proof: []byte{1}, Extra: []byte{2}}
-	sink := common.NewZeroCopySink(nil)
-	p.Serialization(sink)
-	return sink.Bytes()
-}
-
-func zzChainInput(chain uint64) []byte {
-	p := &scom.BlackChainParam{ChainID: chain}
-	sink := common.NewZeroCopySink(nil)
-	p.Serialization(sink)
-	return sink.Bytes()
-}
-
-func zzRegister(db *storage.CacheDB, chain, router uint64) {
-	sc := &side_chain_manager.SideChain{ChainId: chain, Router: router, Name: "c", BlocksToWait: 1, CCMCAddress: []byte{7}}
-	if err := side_chain_manager.PutSideChain(zzNative(db, nil), sc); err != nil {
-		panic("zz: PutSideChain")
-	}
-}
-
-func zzOperator(db *storage.CacheDB) common.Address {
-	op, err := node_manager.GetCurConOperator(zzNative(db, nil))
-	if err != nil {
-		panic("zz: operator")
-	}
-	return op
-}
-
-// routers offered to the source chain: every router GetChainHandler knows and three it does not
-var zzRouters = []uint64{
-	utils.VOTE_ROUTER, utils.BTC_ROUTER, utils.ETH_ROUTER, utils.ONT_ROUTER, utils.NEO_ROUTER, utils.COSMOS_ROUTER,
-	utils.BSC_ROUTER, utils.HECO_ROUTER, utils.QUORUM_ROUTER, utils.ZILLIQA_LEGACY_ROUTER, utils.MSC_ROUTER,
-	utils.NEO3_LEGACY_ROUTER, utils.OKEX_ROUTER, 13, utils.NEO3_ROUTER, utils.POLYGON_HEIMDALL_ROUTER,
-	utils.POLYGON_BOR_ROUTER, utils.ZILLIQA_ROUTER, utils.STARCOIN_ROUTER, utils.PIXIECHAIN_ROUTER, utils.HSC_ROUTER,
-	utils.HARMONY_ROUTER, utils.BYTOM_ROUTER, utils.RIPPLE_ROUTER, 24,
-}
-
-// the routers that have a cross-chain handler (utils/params.go; NEO3_LEGACY and POLYGON_HEIMDALL are header-sync only)
-func zzRouterSupported(r uint64) bool {
-	return r <= utils.RIPPLE_ROUTER && r != 13 && r != utils.NEO3_LEGACY_ROUTER && r != utils.POLYGON_HEIMDALL_ROUTER
-}
-
-// "router active at the current height": HARMONY/HSC/BYTOM start at main-net block 18823000
-func zzRouterActive(r uint64, height uint32, net uint32) bool {
-	late := r == utils.HARMONY_ROUTER || r == utils.HSC_ROUTER || r == utils.BYTOM_ROUTER
-	return !(late && net == config.NETWORK_ID_MAIN_NET && height < 18823000)
-}
-
-func zzIsAccountBased(r uint64) bool { return r != utils.BTC_ROUTER && r != utils.RIPPLE_ROUTER }
-
-type zzOutcome struct {
-	err      error
-	ret      []byte
-	hashes   int
-	notifies int
-	same     bool // write set unchanged
-}
-
-func zzImport(db *storage.CacheDB, tx *types.Transaction, src uint64, height uint32) zzOutcome {
-	before := zzWriteSet(db)
-	ns := zzService(db, tx, height, zzEntranceInput(src, height))
-	ret, err := ImportExTransfer(ns)
-	return zzOutcome{err: err, ret: ret, hashes: len(ns.GetCrossHashes()), notifies: len(ns.GetNotify()), same: zzSameWriteSet(before, zzWriteSet(db))}
-}
-
 // ZZ_C21_ImportGates: one import against an arbitrary registry / blacklist pre-state.
+// Source router: ETH (a plain proof router), VOTE (may answer "pending") or 13 (no handler).
 func ZZ_C21_ImportGates() {
-	net := []uint32{config.NETWORK_ID_MAIN_NET, config.NETWORK_ID_TEST_NET}[zzsym.Choose("net", 2)]
-	config.DefConfig.P2PNode.NetworkId = net
+	config.DefConfig.P2PNode.NetworkId = config.NETWORK_ID_MAIN_NET
 	db := zzNewCacheDB()
 	zzConsensusPool(db, 1)
 	op := zzOperator(db)
 
-	src, dst := zzsym.U64("src"), zzsym.U64("dst")
-	router := zzRouters[zzsym.Choose("router", len(zzRouters))]
-	dstRouter := []uint64{utils.ETH_ROUTER, utils.ONT_ROUTER, utils.VOTE_ROUTER}[zzsym.Choose("dstRouter", 3)]
-	height := zzsym.U32("height")
+	src, dst := zzChainIDs("src", "dst")
+	router := []uint64{utils.ETH_ROUTER, utils.VOTE_ROUTER, 13}[zzsym.Choose("router", 3)]
+	dstRouter := utils.BSC_ROUTER
 	srcReg, dstReg := zzsym.Bool("srcRegistered"), zzsym.Bool("dstRegistered")
 	srcBlack, dstBlack := zzsym.Bool("srcBlacked"), zzsym.Bool("dstBlacked")
 	same := src == dst
 	if same {
 		// one chain: a single registry entry and a single blacklist flag
 		zzsym.Assume(srcReg == dstReg && srcBlack == dstBlack)
-		// sending to oneself over a UTXO router is the BTC/Ripple MakeTransaction path (outside C21/C22)
-		zzsym.Assume(zzIsAccountBased(router))
 		dstRouter = router
 	}
 
@@ -192,19 +58,18 @@ func ZZ_C21_ImportGates() {
 	zzStub.reject = zzsym.Bool("proofRejected")
 	zzStub.pending = zzsym.Bool("votePending")
 	// only the vote and ripple handlers answer (nil, nil) ("not enough votes yet")
-	zzsym.Assume(!zzStub.pending || router == utils.VOTE_ROUTER || router == utils.RIPPLE_ROUTER)
-	zzStub.param = zzSymParam(dst, 1)
+	zzsym.Assume(!zzStub.pending || router == utils.VOTE_ROUTER)
+	zzStub.param = zzSymParam(dst)
 
-	out := zzImport(db, zzTx(zzsym.U32("nonce")), src, height)
+	out := zzImport(db, zzTx(zzsym.U32("nonce")), src, zzsym.U32("height"))
 
-	srcOK := srcReg && !srcBlack && zzRouterSupported(router) && zzRouterActive(router, height, net)
+	srcOK := srcReg && !srcBlack && zzRouterSupported(router)
 	dstOK := dstReg && !dstBlack
 	if out.err == nil {
 		zzsym.Assert(bytes.Equal(out.ret, utils.BYTE_TRUE), "an accepted import returns true")
 		zzsym.Assert(srcReg, "accepted import => source chain registered")
 		zzsym.Assert(!srcBlack, "accepted import => source chain not blacklisted")
 		zzsym.Assert(zzRouterSupported(router), "accepted import => source router has a handler")
-		zzsym.Assert(zzRouterActive(router, height, net), "accepted import => source router active at the current height")
 		zzsym.Assert(zzStub.calls == 1 && !zzStub.reject, "accepted import => the source proof was verified exactly once and accepted")
 		if zzStub.pending {
 			zzsym.Assert(out.same && out.hashes == 0, "a pending vote commits nothing")
@@ -221,7 +86,9 @@ func ZZ_C21_ImportGates() {
 	zzsym.Assert(out.same, "rejected import leaves the store unchanged")
 	zzsym.Assert(out.hashes == 0, "rejected import commits no cross-state leaf")
 	zzsym.Assert(out.notifies == 0, "rejected import emits no event")
-	zzsym.Assert(srcOK || zzStub.calls == 0, "the proof verifier is not consulted for a gated source chain")
+	if !srcOK {
+		zzsym.Assert(zzStub.calls == 0, "the proof verifier is not consulted for a gated source chain")
+	}
 	// no over-rejection: with every gate open and the proof accepted the import goes through
 	zzsym.Assert(!(srcOK && dstOK && !zzStub.reject), "an import whose chains are registered, not blacklisted and active is accepted")
 	if !srcReg {
@@ -230,8 +97,6 @@ func ZZ_C21_ImportGates() {
 		zzsym.Cover("src-blacked")
 	} else if !zzRouterSupported(router) {
 		zzsym.Cover("router-unsupported")
-	} else if !zzRouterActive(router, height, net) {
-		zzsym.Cover("router-inactive")
 	} else if zzStub.reject {
 		zzsym.Cover("proof-rejected")
 	} else if !dstReg {
@@ -245,19 +110,55 @@ func ZZ_C21_ImportGates_witness() {
 	config.DefConfig.P2PNode.NetworkId = config.NETWORK_ID_MAIN_NET
 	db := zzNewCacheDB()
 	zzConsensusPool(db, 1)
-	src, dst := zzsym.U64("src"), zzsym.U64("dst")
+	src, dst := zzChainIDs("src", "dst")
 	zzsym.Assume(src != dst)
-	router := zzRouters[zzsym.Choose("router", len(zzRouters))]
-	zzRegister(db, src, router)
-	zzRegister(db, dst, utils.ETH_ROUTER)
+	zzRegister(db, src, utils.ETH_ROUTER)
+	zzRegister(db, dst, utils.BSC_ROUTER)
 	zzStub.reject = zzsym.Bool("proofRejected")
-	zzStub.param = zzSymParam(dst, 1)
+	zzStub.param = zzSymParam(dst)
 	out := zzImport(db, zzTx(zzsym.U32("nonce")), src, zzsym.U32("height"))
 	zzsym.Assert(out.err != nil, "witness: some import is accepted")
 }
 
-// ZZ_C21_BlackWhiteHistory: T operations out of {blacklist c, whitelist c, import a->b, import b->a,
-// blacklist attempt by a non-operator} on two registered chains; the blacklist model is a pair of flags.
+// ZZ_C21_RouterGate: both chains registered and not blacklisted, proof accepted; the source router ranges
+// over every router number 0..24, both networks, symbolic height: accepted <=> the router has a handler
+// and is active at the current height.
+func ZZ_C21_RouterGate() {
+	net := []uint32{config.NETWORK_ID_MAIN_NET, config.NETWORK_ID_TEST_NET}[zzsym.Choose("net", 2)]
+	config.DefConfig.P2PNode.NetworkId = net
+	db := zzNewCacheDB()
+	router := zzRouters[zzsym.Choose("router", len(zzRouters))]
+	height := zzsym.U32("height")
+	zzRegister(db, 5, router)
+	zzRegister(db, 6, utils.ETH_ROUTER)
+	zzStub.param = zzSymParam(6)
+	out := zzImport(db, zzTx(7), 5, height)
+	want := zzRouterSupported(router) && zzRouterActive(router, height, net)
+	zzsym.Assert((out.err == nil) == want, "an otherwise valid import is accepted iff the source router has a handler and is active at the current height")
+	if out.err != nil {
+		zzsym.Assert(out.same && out.hashes == 0 && zzStub.calls == 0, "an import over an unsupported or inactive router changes nothing and never reaches the proof verifier")
+		if zzRouterSupported(router) {
+			zzsym.Cover("router-inactive")
+		} else {
+			zzsym.Cover("router-unsupported")
+		}
+	} else {
+		zzsym.Cover("router-ok")
+	}
+}
+
+func ZZ_C21_RouterGate_witness() {
+	config.DefConfig.P2PNode.NetworkId = config.NETWORK_ID_MAIN_NET
+	db := zzNewCacheDB()
+	zzRegister(db, 5, utils.HSC_ROUTER)
+	zzRegister(db, 6, utils.ETH_ROUTER)
+	zzStub.param = zzSymParam(6)
+	out := zzImport(db, zzTx(7), 5, zzsym.U32("height"))
+	zzsym.Assert(out.err != nil, "witness: at some height the HSC router is active")
+}
+
+// ZZ_C21_BlackWhiteHistory: T operations out of {blacklist c, whitelist c, import c -> other} on two
+// registered chains; the blacklist model is a pair of flags.
 func ZZ_C21_BlackWhiteHistory() {
 	T := zzsym.Param("T")
 	config.DefConfig.P2PNode.NetworkId = config.NETWORK_ID_MAIN_NET
@@ -265,7 +166,7 @@ func ZZ_C21_BlackWhiteHistory() {
 	zzConsensusPool(db, 1)
 	op := zzOperator(db)
 	var chain [2]uint64
-	chain[0], chain[1] = zzsym.U64("a"), zzsym.U64("b")
+	chain[0], chain[1] = zzChainIDs("a", "b")
 	zzsym.Assume(chain[0] != chain[1])
 	zzRegister(db, chain[0], utils.ETH_ROUTER)
 	zzRegister(db, chain[1], utils.BSC_ROUTER)
@@ -273,7 +174,7 @@ func ZZ_C21_BlackWhiteHistory() {
 	imports := 0
 	for t := 0; t < T; t++ {
 		c := zzsym.Choose("chain", 2)
-		switch zzsym.Choose("op", 4) {
+		switch zzsym.Choose("op", 3) {
 		case 0:
 			_, err := BlackChain(zzService(db, zzTx(uint32(t), op), 100, zzChainInput(chain[c])))
 			zzsym.Assert(err == nil, "the consensus operator can blacklist a chain")
@@ -284,24 +185,9 @@ func ZZ_C21_BlackWhiteHistory() {
 			blacked[c] = false
 			zzsym.Cover("white")
 		case 2:
-			// somebody else tries to change the blacklist
-			var who common.Address
-			copy(who[:], zzsym.Bytes("who", 20))
-			zzsym.Assume(who != op)
-			before := zzWriteSet(db)
-			var err error
-			if zzsym.Bool("tryWhite") {
-				_, err = WhiteChain(zzService(db, zzTx(uint32(t), who), 100, zzChainInput(chain[c])))
-			} else {
-				_, err = BlackChain(zzService(db, zzTx(uint32(t), who), 100, zzChainInput(chain[c])))
-			}
-			zzsym.Assert(err != nil, "only the consensus operator may change the blacklist")
-			zzsym.Assert(zzSameWriteSet(before, zzWriteSet(db)), "a refused blacklist change leaves the store unchanged")
-		case 3:
 			// import chain[c] -> chain[1-c]
 			zzStub.reject, zzStub.pending, zzStub.calls = false, false, 0
-			zzStub.param = zzSymParam(chain[1-c], 0)
-			zzStub.param.CrossChainID = []byte{byte(t)}
+			zzStub.param = zzSymParam(chain[1-c])
 			out := zzImport(db, zzTx(uint32(100+t)), chain[c], 100)
 			if blacked[0] || blacked[1] {
 				zzsym.Assert(out.err != nil, "imports from or to a blacklisted chain are rejected until it is whitelisted")
@@ -310,7 +196,7 @@ func ZZ_C21_BlackWhiteHistory() {
 			} else {
 				zzsym.Assert(out.err == nil, "imports between chains that are not (or no longer) blacklisted are accepted")
 				if imports > 0 {
-					zzsym.Cover("import-restored-or-repeated")
+					zzsym.Cover("import-after-import")
 				}
 			}
 			imports++
@@ -327,14 +213,53 @@ func ZZ_C21_BlackWhiteHistory_witness() {
 	db := zzNewCacheDB()
 	zzConsensusPool(db, 1)
 	op := zzOperator(db)
-	a, b := zzsym.U64("a"), zzsym.U64("b")
+	a, b := zzChainIDs("a", "b")
 	zzRegister(db, a, utils.ETH_ROUTER)
 	zzRegister(db, b, utils.BSC_ROUTER)
 	_, err := BlackChain(zzService(db, zzTx(0, op), 100, zzChainInput(zzsym.U64("c"))))
 	zzsym.Assert(err == nil, "the consensus operator can blacklist a chain")
-	zzStub.param = zzSymParam(b, 0)
+	zzStub.param = zzSymParam(b)
 	out := zzImport(db, zzTx(1), a, 100)
 	zzsym.Assert(out.err == nil, "witness: the blacklisted chain may be an endpoint of the import")
+}
+
+// ZZ_C21_BlacklistNeedsOperator: BlackChain / WhiteChain witnessed by anybody but the consensus operator
+// fail and change nothing.
+func ZZ_C21_BlacklistNeedsOperator() {
+	db := zzNewCacheDB()
+	zzConsensusPool(db, 1+zzsym.Choose("validators", 4))
+	op := zzOperator(db)
+	c, _ := zzChainIDs("c", "unused")
+	if zzsym.Bool("alreadyBlacked") {
+		_, err := BlackChain(zzService(db, zzTx(0, op), 100, zzChainInput(c)))
+		zzsym.Assert(err == nil, "the consensus operator can blacklist a chain")
+	}
+	var who common.Address
+	copy(who[:], zzsym.Bytes("who", 20))
+	before := zzWriteSet(db)
+	var err error
+	if zzsym.Bool("tryWhite") {
+		_, err = WhiteChain(zzService(db, zzTx(1, who), 100, zzChainInput(c)))
+	} else {
+		_, err = BlackChain(zzService(db, zzTx(1, who), 100, zzChainInput(c)))
+	}
+	if who != op {
+		zzsym.Assert(err != nil, "only the consensus operator may change the blacklist")
+		zzsym.Assert(zzSameWriteSet(before, zzWriteSet(db)), "a refused blacklist change leaves the store unchanged")
+		zzsym.Cover("refused")
+	} else {
+		zzsym.Assert(err == nil, "the consensus operator may change the blacklist")
+		zzsym.Cover("operator")
+	}
+}
+
+func ZZ_C21_BlacklistNeedsOperator_witness() {
+	db := zzNewCacheDB()
+	zzConsensusPool(db, 2)
+	var who common.Address
+	copy(who[:], zzsym.Bytes("who", 20))
+	_, err := BlackChain(zzService(db, zzTx(1, who), 100, zzChainInput(3)))
+	zzsym.Assert(err != nil, "witness: who may be the operator")
 }
 
 // ZZ_C21_BlacklistDirect (no overrides, replayed natively): BlackChain / WhiteChain / CheckIfChainBlacked
